@@ -40,27 +40,36 @@ Definition model_cands (s : db) (f : rfilter) : option (list event) :=
   | Some rows => Some (List.map (fun rp => event_of_row (fst rp) (snd rp)) (join_payloads s rows))
   end.
 
+Definition all_events_of (s : db) : list event :=
+  List.map (fun rp => event_of_row (fst rp) (snd rp)) (join_payloads s (d_events s)).
+
 Definition model_accepts (s : db) (fs : list rfilter) (maxLimit : Z) (obs : qres) : bool :=
   match query s fs maxLimit, obs with
   | None, QErr => true
   | None, QOk _ => false
   | Some _, QErr => false
   | Some q, QOk out =>
-      match fs with
-      | [] => level_eq q out
-      | _ =>
-          match all_some (List.map (model_cands s) fs) with
-          | None => false
-          | Some cs =>
-              let cands := combine cs (List.map (fun f => sub_limit_of (f_limit f) maxLimit) fs) in
-              let outer := sub_limit_of (Some (to_int64 maxLimit)) maxLimit in
-              if forallb nodupb cs then
-                union_topn_ok cands outer out &&&
-                (* where no LIMIT cuts through a created_at level the answer is determined *)
-                (if forallb (fun cl => match ties_of cl with [] => true | _ => false end) cands &&&
-                    match outer with None => true | Some m => zlen q <? m end
-                 then level_eq q out else true)
-              else level_eq q out
-          end
+      (* fast path: the answer is the model's own up to the order inside a
+         created_at level (always a valid choice) *)
+      if level_eq q out then true else
+      (* an empty filter list has no WHERE clause: one candidate set, every row *)
+      let ocs := match fs with
+                 | [] => Some [(all_events_of s, @None Z)]
+                 | _ => match all_some (List.map (model_cands s) fs) with
+                        | Some cs => Some (combine cs (List.map (fun f => sub_limit_of (f_limit f) maxLimit) fs))
+                        | None => None
+                        end
+                 end in
+      match ocs with
+      | None => false
+      | Some cands =>
+          let outer := goqu_limit_of (Some (to_int64 maxLimit)) maxLimit in
+          if forallb (fun cl => nodupb (fst cl)) cands then
+            union_topn_ok cands outer out &&&
+            (* where no LIMIT cuts through a created_at level the answer is determined *)
+            (if forallb (fun cl => match ties_of cl with [] => true | _ => false end) cands &&&
+                match outer with None => true | Some m => zlen q <? m end
+             then level_eq q out else true)
+          else false
       end
   end.
